@@ -52,7 +52,26 @@ func parseAll(ev map[string]any, s string) bool {
 	return true
 }
 
-var alphabet = []string{"/", ":", "@", ".", "-", "_", " ", "A", "z", "0", "%", "\x00", "\n", "\xc3\xa9", "..", "//", "::", "@@", "~", "+", "localhost", "sha256:"}
+var alphabet = []string{"/", ":", "@", ".", "-", "_", " ", "A", "z", "0", "%", "\x00", "\n", "\xc3\xa9", "..", "//", "::", "@@", "~", "+", "localhost", "sha256:",
+	// letters and digits outside ASCII, among them the two that Unicode simple case folding maps to ASCII
+	// letters (KELVIN SIGN -> k, LATIN SMALL LETTER LONG S -> s)
+	"\u212a", "\u017f", "\u0131", "\u0130", "\uff41", "\u0663", "\u00b2"}
+
+// alien reports whether s has a character outside the alphabet of the reference grammar (registry
+// references: letters, digits and . _ - : / @ +; layout references also space and ~), decided without
+// regular expressions
+func alien(s string, layout bool) int {
+	for _, r := range s {
+		switch {
+		case r >= 'a' && r <= 'z', r >= 'A' && r <= 'Z', r >= '0' && r <= '9':
+		case r == '.' || r == '_' || r == '-' || r == ':' || r == '/' || r == '@' || r == '+':
+		case layout && (r == ' ' || r == '~'):
+		default:
+			return 1
+		}
+	}
+	return 0
+}
 
 func main() {
 	in := flag.String("in", "", "scenarios (jsonl)")
@@ -127,6 +146,8 @@ func main() {
 				ev := map[string]any{"ev": "mutant", "shex": hex.EncodeToString([]byte(m))}
 				if parseAll(ev, m) {
 					mutAcc++
+					sch, _ := ev["scheme"].(string)
+					ev["alien"] = alien(m, sch == "ocidir" || sch == "ocifile")
 					if err := enc.Encode(ev); err != nil {
 						fail(err)
 					}
